@@ -19,6 +19,14 @@ Theorem C16_total_is_product : forall vs, sumq (outer vs) = fold_right (fun v ac
 Proof. exact outer_total. Qed.
 Print Assumptions C16_total_is_product.
 
+(** Put together for a whole histogram: over consecutive bins on every axis (any number of axes, any mix of axis kinds, the
+    cosine table taken from any function), the bin sizes sum to the product of the per-axis measures of the covered intervals. *)
+Theorem C16_sizes_sum_to_region : forall (cosf : Qc -> Qc) pi ks axes starts, length ks = length axes -> chains axes starts ->
+  sumq (outer (map (fun p => axis_sizes (fst (fst p)) pi (snd (fst p)) (snd p)) (combine (combine ks axes) (map (cos_table cosf) axes)))) =
+  region cosf pi ks axes starts.
+Proof. exact sizes_sum_to_region. Qed.
+Print Assumptions C16_sizes_sum_to_region.
+
 (** Full angular ranges give pi R^2, 4 pi, 4/3 pi R^3 and pi R^2 H (for a function with cos 0 = 1, cos pi = -1). *)
 Theorem C16_disc : forall (cosf : Qc -> Qc) pi R, meas cosf pi AHalfSq 0 R * meas cosf pi ALin 0 (qz 2 * pi) = pi * R * R.
 Proof. exact disc_measure. Qed.
